@@ -46,7 +46,7 @@ EXHAUSTIVE = {
 REACH = {t: ["sub_rejected", "sub_timeout", "sub_ok", "unsub_rejected", "unsub_timeout", "unsub_ok",
              "full_table", "size_0", "already_subscribed", "startup_subscribed", "probe_free_count_checked",
              "versions_3", "startup_several_endpoints", "startup_group_on_two_endpoints", "rejection_status_family_swept",
-             "overlapping_calls", "startup_again_on_same_object", "through_coordinator_endpoint", "group_id_zero"] for t in ("quick", "thorough")}
+             "overlapping_calls", "startup_again_on_same_object", "through_coordinator_endpoint", "group_id_zero", "initial_entry_on_endpoint_242"] for t in ("quick", "thorough")}
 SHARD_TIMEOUT = {"quick": 900, "thorough": 3600}
 
 G_DEFAULT = [0x1001, 0x1002, 0x1003]
@@ -54,6 +54,7 @@ G = list(G_DEFAULT)
 FOREIGN = [0x2001, 0x2002, 0x2003, 0x2004]
 FRESH = [0x3001 + i for i in range(8)]
 OPS = [(o, g) for o in ("sub", "unsub") for g in G]
+IN_USE_EPS = (1, 242, 1, 2, 255, 1, 0x7F)
 
 
 def initial_tables(n):
@@ -136,6 +137,12 @@ def run_shard(desc) -> Acc:
     tabs = initial_tables(n)[desc["chunk"]::desc["chunks"]]
     if desc.get("sample"):
         tabs = tabs[desc["seed"] % desc["sample"]::desc["sample"]]
+    # an entry is in use when its endpoint is not 0: the endpoint number itself (1, another application
+    # endpoint, the Green Power endpoint 242, 255) and the network index are data the NCP reports
+    tabs = [[(e[0], IN_USE_EPS[(ti + k) % len(IN_USE_EPS)], (0, 0, 1, 255)[(ti + 2 * k) % 4]) if e[1] else e for k, e in enumerate(tb)]
+            for ti, tb in enumerate(tabs)]
+    if any(e[1] == 242 for tb in tabs for e in tb):
+        acc.hit("initial_entry_on_endpoint_242")
     acc.reach["version:%d" % V] += 1
 
     async def main(loop):
